@@ -423,6 +423,27 @@ func regexTrees() []*bs.RegexExpression {
 	return out
 }
 
+// regexTreesDeep: depth-2 trees over five real leaves, two of them on the same field — every
+// ordered triple in the four shapes And(x, Or(y, z)), Or(And(x, z), y), Or(x, And(y, z)),
+// And(Or(x, y), z). The bloom guard derived from such a tree must keep its boolean shape; with
+// one row per file most files lack the other fields.
+func regexTreesDeep() []*bs.RegexExpression {
+	l := []bs.RegexExpression{bs.FieldRegex("c", "^z"), bs.FieldRegex("a", "1"), bs.FieldRegex("c", "1$"), bs.FieldRegex("t", "x"), bs.FieldRegex("b", "^y")}
+	var out []*bs.RegexExpression
+	for i := range l {
+		for j := range l {
+			for k := range l {
+				t1 := bs.RegexAnd(l[i], bs.RegexOr(l[j], l[k]))
+				t2 := bs.RegexOr(bs.RegexAnd(l[i], l[k]), l[j])
+				t3 := bs.RegexOr(l[i], bs.RegexAnd(l[j], l[k]))
+				t4 := bs.RegexAnd(bs.RegexOr(l[i], l[j]), l[k])
+				out = append(out, &t1, &t2, &t3, &t4)
+			}
+		}
+	}
+	return out
+}
+
 func treeCase(o sweepOpts) CaseResult {
 	var res CaseResult
 	for _, variant := range []int{0, 1} {
@@ -477,6 +498,9 @@ func treeCase(o sweepOpts) CaseResult {
 				if o.c01 && m && got[r.Info.Canon] == 0 {
 					res.Findings = append(res.Findings, fnd("c01-tree-missing", "C01 %s: row %s matches the tree by the documented semantics but was not returned", name, r.Info.Canon))
 				}
+				if o.c02 && m && got[r.Info.Canon] == 0 {
+					res.Findings = append(res.Findings, fnd("c02-tree-missing", "C02 %s: no prefilter, so the answer must equal the matching stored rows, but row %s was not returned", name, r.Info.Canon))
+				}
 				if o.c02 && !m && got[r.Info.Canon] > 0 {
 					res.Findings = append(res.Findings, fnd("c02-tree-extra", "C02 %s: row %s does not match the tree by the documented semantics but was returned", name, r.Info.Canon))
 				}
@@ -486,6 +510,9 @@ func treeCase(o sweepOpts) CaseResult {
 			run(be, nil)
 		}
 		for _, re := range rts {
+			run(nil, re)
+		}
+		for _, re := range regexTreesDeep() {
 			run(nil, re)
 		}
 		for i := 0; i < len(bts); i += 7 {
